@@ -9,7 +9,7 @@ from ..engines import labelkind as LK
 def run(ctx):
     # language-level slips in the modules the property is anchored in (engine Y)
     from ..engines import gotchas as GY
-    GY.run(ctx, ('specification', 'specification_extrator', 'rule_db.base', 'rule_db.forest', 'tree_searcher', 'strategies.rule'))
+    GY.run(ctx, ('equiv_db', 'specification', 'specification_extrator', 'rule_db.base', 'rule_db.forest', 'tree_searcher', 'strategies.rule'))
     ctx.floor("Y", 1)
     ctx.extra["explanation"] = (
         "static analysis (ast, no execution) of specification_extrator.py and specification.py: every node "
@@ -83,3 +83,8 @@ def run(ctx):
         fn(ctx)
     ctx.floor("F3", 3)
     ctx.floor("F5", 3)
+    G.g9_ungroup_only_when_grouping(ctx)
+    ctx.floor("G9", 1)
+    from ..engines import storekeys as SKK
+    SKK.w_insertion_discipline(ctx)
+    ctx.floor("W1", 3)
